@@ -186,6 +186,23 @@ func (fs LocalFileSystem) Create(ctx context.Context, name string, body io.ReadC
 		flags |= os.O_EXCL
 	}
 
+	// A failed upload removes what it has created and nothing else. When
+	// the name is a symbolic link, the link was there before and stays; what
+	// the upload creates is its target, if that was missing.
+	discard := func() { os.Remove(dst) }
+	if li, err := os.Lstat(dst); err == nil && li.Mode()&os.ModeSymlink != 0 {
+		_, err := os.Stat(dst)
+		targetMissing := os.IsNotExist(err)
+		discard = func() {
+			if !targetMissing {
+				return
+			}
+			if target, err := filepath.EvalSymlinks(dst); err == nil {
+				os.Remove(target)
+			}
+		}
+	}
+
 	wc, err := os.OpenFile(dst, flags, 0666)
 	if os.IsNotExist(err) || errors.Is(err, syscall.ENOTDIR) {
 		// RFC 4918 section 9.7.1: the parent collection is missing
@@ -196,11 +213,11 @@ func (fs LocalFileSystem) Create(ctx context.Context, name string, body io.ReadC
 	defer wc.Close()
 
 	if _, err := io.Copy(wc, body); err != nil {
-		removeUpload(dst)
+		discard()
 		return nil, false, errFromOS(err)
 	}
 	if err := wc.Close(); err != nil {
-		removeUpload(dst)
+		discard()
 		return nil, false, errFromOS(err)
 	}
 
@@ -220,19 +237,6 @@ func (fs LocalFileSystem) Create(ctx context.Context, name string, body io.ReadC
 	}
 
 	return fi, created, err
-}
-
-// removeUpload removes the file a failed upload has created. When the name is
-// a symbolic link whose target was missing, the new file is the target: the
-// link was there before and stays.
-func removeUpload(p string) {
-	if fi, err := os.Lstat(p); err == nil && fi.Mode()&os.ModeSymlink != 0 {
-		if target, err := filepath.EvalSymlinks(p); err == nil {
-			os.Remove(target)
-		}
-		return
-	}
-	os.Remove(p)
 }
 
 func (fs LocalFileSystem) RemoveAll(ctx context.Context, name string, opts *RemoveAllOptions) error {
